@@ -215,13 +215,20 @@ theorem C03_blocked_registered_or_woken (s : St) (h : Reachable s) (i : Nat)
 commit fcfcfbe), whatever was submitted or consumed. (`block = false`: the call does not wait for a
 completion — it has a timeout, or futures were waiting for a slot when it started.) -/
 theorem C03_blocked_enter_always_wakes (s : St) (n : Nat) (hr : s.r = RPc.enter n)
-    (hb : s.block = false) :
+    (hb : s.block = false) (hk : s.kt = false) :
     (stepR s).r = RPc.w1 ∧ (stepR s).H = s.H + min n (s.T - s.H) ∧
     (stepR (stepR s)).r = RPc.w2 (s.H + min n (s.T - s.H)) ∧
     (stepR (stepR (stepR s))).r =
       if s.len - (s.T - (s.H + min n (s.T - s.H))) = 0 then RPc.idle
       else RPc.tryLock (s.len - (s.T - (s.H + min n (s.T - s.H)))) :=
-  blocked_enter_always_wakes s n hr hb
+  blocked_enter_always_wakes s n hr hb hk
+
+/-- With a kernel thread (SQPOLL) the ring thread's `enter` wakes it and it takes everything that
+is published at that moment — also entries published after `to_submit` was computed: the queue
+is empty when the wake pass starts. -/
+theorem C03_enter_with_kernel_thread (s : St) (n : Nat) (hr : s.r = RPc.enter n)
+    (hk : s.kt = true) : (stepR s).H = s.T ∧ (stepR s).T = s.T := by
+  simp [stepR, hr, hk]
 
 /-- **A wake pass is effective**: with `avail ≥ 1` free slots and a non-empty list it invokes the
 `min(avail, #blocked)` OLDEST wakers. -/
